@@ -16,13 +16,13 @@ from common.util import Result, err_kind
 from common import nets
 
 ID = 'C14'
-N = {'quick': 1400, 'thorough': 60000}
+N = {'quick': 3000, 'thorough': 60000}
 LEAN_MODULES = ['GnpyProofs.Props.C14']
 THEOREMS = [f'Gnpy.Slots.{t}' for t in (
     'step_blocked_unchanged', 'step_accept_free', 'step_slots_disjoint', 'step_marks_exactly', 'served_cellAt',
     'same_on_all_oms', 'enough_slots', 'step_preserves_wf', 'run_spec', 'history_no_overlap', 'occupancy_is_union',
-    'run_preserves_wf', 'first_fit_lowest', 'user_fixed_honoured', 'user_fixed_membership', 'reserved_check', 'create_wf',
-    'stateWF_of_create', 'assignSpectrum_ok', 'assignSpectrum_of', 'spectrumSelection_sound', 'spectrumSelection_first',
+    'run_preserves_wf', 'first_fit_lowest', 'last_fit_highest', 'user_fixed_honoured', 'user_fixed_membership', 'reserved_check', 'create_wf',
+    'stateWF_of_create', 'assignSpectrum_ok', 'assignSpectrum_of', 'spectrumSelection_sound', 'spectrumSelection_first', 'spectrumSelection_last',
     'determineSlotNumbers_pos', 'determineSlotNumbers_fixed', 'nmLoop_spec', 'aggregate_spec', 'restoreOrder_perm',
     'applyPath_spec', 'restoreOrder_positional')] + ['Gnpy.Py.sorted_pairwise', 'Gnpy.Py.sorted_perm']
 PARTIAL = []
